@@ -19,6 +19,7 @@
 #include <core/sync.h>
 #include <datatypes/msg_queue.h>
 #include <distributed/mpi.h>
+#include <verif/hooks.h>
 
 #include <memory.h>
 #include <stdatomic.h>
@@ -71,6 +72,7 @@ void gvt_start_processing(void)
 {
 	gvt_accumulator = SIMTIME_MAX;
 	thread_phase = thread_phase_A;
+	VERIF_POINT(VP_GVT_START, 0, 0, 0, 0);
 }
 
 /**
@@ -114,12 +116,14 @@ static bool gvt_thread_phase_run(void)
 			gvt_accumulator = min(gvt_accumulator, msg_queue_time_peek());
 			thread_phase = thread_phase_B;
 			atomic_fetch_add_explicit(&c_b, 1U, memory_order_relaxed);
+			VERIF_POINT(VP_TPHASE, thread_phase_B, VERIF_D(gvt_accumulator), 0, 0);
 			break;
 		case thread_phase_B:
 			if(atomic_load_explicit(&c_b, memory_order_relaxed) != global_config.n_threads)
 				break;
 			thread_phase = thread_phase_C;
 			atomic_fetch_add_explicit(&c_a, 1U, memory_order_relaxed);
+			VERIF_POINT(VP_TPHASE, thread_phase_C, VERIF_D(gvt_accumulator), 0, 0);
 			break;
 		case thread_phase_C:
 			if(atomic_load_explicit(&c_a, memory_order_relaxed) != global_config.n_threads)
@@ -127,12 +131,14 @@ static bool gvt_thread_phase_run(void)
 			reducing_p[rid] = min(gvt_accumulator, msg_queue_time_peek());
 			thread_phase = thread_phase_D;
 			atomic_fetch_sub_explicit(&c_b, 1U, memory_order_release);
+			VERIF_POINT(VP_TPHASE, thread_phase_D, VERIF_D(reducing_p[rid]), 0, 0);
 			break;
 		case thread_phase_D:
 			if(atomic_load_explicit(&c_b, memory_order_acquire))
 				break;
 			thread_phase = thread_phase_idle;
 			atomic_fetch_sub_explicit(&c_a, 1U, memory_order_relaxed);
+			VERIF_POINT(VP_TPHASE, thread_phase_idle, VERIF_D(reducing_p[rid]), 0, 0);
 			return true;
 		default:
 			__builtin_unreachable();
@@ -180,6 +186,7 @@ static bool gvt_node_phase_run(void)
 			gvt_phase = gvt_phase ^ (!node_phase);
 			thread_phase = thread_phase_A;
 			++node_phase;
+			VERIF_POINT(VP_NPHASE, node_phase, gvt_phase, 0, 0);
 			break;
 		case node_sent_reduce:
 			if(atomic_load_explicit(&c_a, memory_order_relaxed))
@@ -194,10 +201,12 @@ static bool gvt_node_phase_run(void)
 			// synchronizes total_sent and sent values zeroing
 			if(atomic_fetch_add_explicit(&c_c, 1U, memory_order_acq_rel) != global_config.n_threads - 1) {
 				node_phase = node_sent_wait;
+				VERIF_POINT(VP_NPHASE, node_phase, 0, 1, 0);
 				break;
 			}
 			mpi_reduce_sum_scatter((uint32_t *)total_sent, &remote_msg_to_receive);
 			node_phase = node_sent_reduce_wait;
+			VERIF_POINT(VP_NPHASE, node_phase, 0, 0, 0);
 			break;
 		case node_sent_reduce_wait:
 			if(!mpi_reduce_sum_scatter_done())
@@ -205,6 +214,7 @@ static bool gvt_node_phase_run(void)
 			atomic_fetch_sub_explicit(&total_msg_received, remote_msg_to_receive + global_config.n_threads,
 			    memory_order_relaxed);
 			node_phase = node_sent_wait;
+			VERIF_POINT(VP_NPHASE, node_phase, remote_msg_to_receive, 0, 0);
 			break;
 		case node_sent_wait:
 			{
@@ -216,16 +226,19 @@ static bool gvt_node_phase_run(void)
 				uint32_t q = n_nodes / global_config.n_threads + 1;
 				memset(total_sent + rid * q, 0, q * sizeof(*total_sent));
 				node_phase = node_phase_redux_second;
+				VERIF_POINT(VP_NPHASE, node_phase, 0, 0, 0);
 				break;
 			}
 		case node_min_reduce:
 			if(atomic_fetch_add_explicit(&c_d, 1U, memory_order_relaxed)) {
 				node_phase = node_min_wait;
+				VERIF_POINT(VP_NPHASE, node_phase, 0, 0, 0);
 				break;
 			}
 			*reducing_p = gvt_node_reduce();
 			mpi_reduce_min(reducing_p);
 			node_phase = node_min_reduce_wait;
+			VERIF_POINT(VP_NPHASE, node_phase, 0, 0, 0);
 			break;
 		case node_min_reduce_wait:
 			if(atomic_load_explicit(&c_d, memory_order_relaxed) != global_config.n_threads ||
@@ -233,17 +246,20 @@ static bool gvt_node_phase_run(void)
 				break;
 			atomic_fetch_sub_explicit(&c_c, global_config.n_threads, memory_order_release);
 			node_phase = node_done;
+			VERIF_POINT(VP_NPHASE, node_phase, VERIF_D(*reducing_p), 1, 0);
 			return true;
 		case node_min_wait:
 			if(atomic_load_explicit(&c_c, memory_order_acquire))
 				break;
 			node_phase = node_done;
+			VERIF_POINT(VP_NPHASE, node_phase, VERIF_D(*reducing_p), 0, 0);
 			return true;
 		case node_done:
 			node_phase = node_phase_redux_first;
 			thread_phase = thread_phase_idle;
 			if(atomic_fetch_sub_explicit(&c_d, 1U, memory_order_relaxed) == 1)
 				mpi_control_msg_send_to(MSG_CTRL_GVT_DONE, 0);
+			VERIF_POINT(VP_NPHASE, node_phase, 0, 0, 0);
 			break;
 		default:
 			__builtin_unreachable();
@@ -253,6 +269,7 @@ static bool gvt_node_phase_run(void)
 
 simtime_t gvt_phase_run(void)
 {
+	VERIF_YIELD(1);
 	if(unlikely(thread_phase))
 		return gvt_node_phase_run() ? *reducing_p : 0.0;
 
@@ -265,6 +282,7 @@ simtime_t gvt_phase_run(void)
 			    !atomic_load_explicit(&gvt_nodes, memory_order_relaxed))) {
 			gvt_timer = t;
 			atomic_fetch_add_explicit(&gvt_nodes, n_nodes, memory_order_relaxed);
+			VERIF_POINT(VP_GVT_INITIATE, 0, 0, 0, 0);
 			mpi_control_msg_broadcast(MSG_CTRL_GVT_START);
 		}
 	}
@@ -274,8 +292,10 @@ simtime_t gvt_phase_run(void)
 
 void gvt_msg_drain(void)
 {
+	VERIF_POINT(VP_DRAIN, 0, 0, 0, 0);
 	while(thread_phase != thread_phase_idle) // flush partial gvt algorithm
 		gvt_phase_run();
+	VERIF_POINT(VP_DRAIN, 1, 0, 0, 0);
 
 	if(sync_thread_barrier())
 		mpi_node_barrier();
@@ -283,9 +303,11 @@ void gvt_msg_drain(void)
 
 	for(int i = 0; i < 2; ++i) { // flush both gvt phases
 		gvt_timer = 0;       // this satisfies the timer condition
+		VERIF_POINT(VP_DRAIN, 2 + i, 0, 0, 0);
 		while(!gvt_phase_run())
 			mpi_remote_msg_drain();
 	}
+	VERIF_POINT(VP_DRAIN, 4, 0, 0, 0);
 }
 
 /**
